@@ -54,7 +54,7 @@ func executeRun(c Check, phase string, index uint64, t *Tape, world string, stat
 	sawSoftHeap = false
 	res := c.Run(ctx)
 	simrt.Stop()
-	if sawSoftHeap {
+	if sawSoftHeap || simrt.SoftHeapFired() {
 		stats["discarded_heap_safety_limit"]++
 		res.Violations = nil
 		res.Nontrivial = false
